@@ -673,6 +673,69 @@ pub fn b_run(c: &BCase) -> Outcome {
     Ok(obs)
 }
 
+// ------------------------------------------------------------------ raw bytes (replay unit of the libFuzzer target)
+
+#[derive(Debug, Clone, Serialize, Deserialize)]
+pub struct RawCase {
+    pub target: u8,
+    pub bytes: Vec<u8>,
+}
+
+pub fn raw_strategy(_tier: Tier) -> BoxedStrategy<RawCase> {
+    (any::<u8>(), proptest::collection::vec(any::<u8>(), 0..96)).prop_map(|(target, bytes)| RawCase { target, bytes }).boxed()
+}
+
+pub fn raw_run(c: &RawCase) -> Outcome {
+    let mut obs = Obs::default();
+    judge_bytes(&c.bytes, c.target, &mut obs)?;
+    if let Ok(text) = std::str::from_utf8(&c.bytes) {
+        judge_json(text, c.target, &mut obs)?;
+    }
+    Ok(obs)
+}
+
+/// entry point of the `deser_bytes` libFuzzer target: first byte = target type, rest = stream
+pub fn fuzz_raw(data: &[u8]) {
+    if data.is_empty() {
+        return;
+    }
+    let c = RawCase { target: data[0], bytes: data[1..].to_vec() };
+    if let Err(f) = run_case_strict(raw_run, &c) {
+        let dir = std::path::Path::new(VERIF_DIR).join("failures").join("C17");
+        let _ = std::fs::create_dir_all(&dir);
+        let path = dir.join(format!("serde_raw-bytes-fuzz-{:08x}.json", data.iter().fold(0u32, |h, &b| h.wrapping_mul(31).wrapping_add(b as u32))));
+        let rf = ReplayFile { property: "C17".into(), sub: "serde/raw-bytes".into(), sig: f.sig.clone(), msg: f.msg.clone(), case: serde_json::to_value(&c).unwrap() };
+        let _ = std::fs::write(&path, serde_json::to_string_pretty(&rf).unwrap());
+        eprintln!("VIOLATION property=C17 replay={}", path.display());
+        panic!("{}: {}", f.sig, f.msg);
+    }
+}
+
+/// small valid streams for the fuzzers' starting corpus
+pub fn write_seed_corpus(dir: &std::path::Path) {
+    let _ = std::fs::create_dir_all(dir);
+    let a = AGraph { directed: true, n: 4, edges: vec![(0, 1, 1), (1, 2, 2), (2, 0, 3), (3, 3, 4), (0, 1, 5)] };
+    let mut k = 0;
+    let mut put = |target: u8, body: Vec<u8>| {
+        let mut v = vec![target];
+        v.extend(body);
+        let _ = std::fs::write(dir.join(format!("seed-{k:02}")), v);
+        k += 1;
+    };
+    for (salt, trailing) in [(1u64, false), (2, true), (5, false)] {
+        let s8: StableGraph<W, W, Directed, u8> = stable_with_holes(&a, salt, trailing);
+        put(0, bincode::serialize(&s8).unwrap());
+        put(0, serde_json::to_vec(&s8).unwrap());
+        put(1, bincode::serialize(&Graph::from(s8.clone())).unwrap());
+        put(1, serde_json::to_vec(&Graph::from(s8.clone())).unwrap());
+        let s32: StableGraph<W, W, Directed, u32> = stable_with_holes(&a, salt, trailing);
+        put(2, bincode::serialize(&s32).unwrap());
+        put(2, serde_json::to_vec(&s32).unwrap());
+    }
+    let gm: GraphMap<i32, i32, Directed> = to_graphmap(&super::c10::simplified_min(&a), |w| w);
+    put(5, bincode::serialize(&gm).unwrap());
+}
+
 pub fn property() -> Property {
     Property {
         id: "C17",
@@ -684,6 +747,7 @@ pub fn property() -> Property {
             sub("serde/roundtrip-at-limit", 60, 400, l_strategy, l_run),
             sub_isolated("serde/hostile-json", 60_000, 1_500_000, h_strategy, h_run),
             sub_isolated("serde/hostile-bincode", 80_000, 2_000_000, b_strategy, b_run),
+            sub_isolated("serde/raw-bytes", 40_000, 1_000_000, raw_strategy, raw_run),
         ],
     }
 }
